@@ -7,10 +7,12 @@ from harness import pipeline as PL, solver as S
 
 SPEC = {
     "gen": ["Rotations", "GetHkl"],
-    "modules": ["DiffcalcProofs.Props.C03"],
+    "modules": ["DiffcalcProofs.Props.C03", "DiffcalcProofs.Props.C03Sample"],
     "theorems": {"DiffcalcProofs.Props.C03": [
         "C03.detFromQaz_complete", "C03.filter_keeps_exact", "C03.hklMatches_exact", "C03.allOrNothing",
-        "C03.asin_roots_complete", "C03.acos_roots_complete"]},
+        "C03.asin_roots_complete", "C03.acos_roots_complete"],
+        "DiffcalcProofs.Props.C03Sample": ["C03.inner_of_sampleSpec", "C03.sameAngle_of_rot", "C03.sampleConMuEta_complete", "C03.sampleConMuEta_total",
+                                           "C03.atan_roots_complete", "C03.omegaBisect_complete"]},
     "level": "proof",
     "rule": "all 185 implemented modes: a random physical position P over (-180,180]^6 (constructed to satisfy the void / bisect / omega constraints where the "
             "mode has them), its constraint values read off with independent geometric pseudo-angles, hkl = forward model of P; P must be a regular point "
@@ -18,7 +20,10 @@ SPEC = {
             "implementation at candidate level (__calc_hkl_to_position); distinct = modes with at least one recovered position",
     "assumptions": ["regularity is judged numerically; bisect modes by construction of a generic position"],
     "partial": "proved: the root-enumeration lemmas (asin / acos pairs exhaust the solutions mod 2 pi), completeness of the detector layer from qaz, an exactly consistent candidate "
-               "passes filter and guard, and the all-or-nothing structure of get_position. Branch completeness of the sample layers is covered by candidate-level correspondence + round-trip oracle only.",
+               "passes filter and guard, and the all-or-nothing structure of get_position. Branch completeness of the sample layer is proved for "
+               "the mu+eta branch (sampleConMuEta_complete: any (chi, phi) solving the sample relation is returned mod 2 pi — both asin roots, chi fixed by the rotation equations) and for "
+               "omega+bisect on top of it (omegaBisect_complete: both atan roots x both asin roots, no failure of a sibling pair can lose the list); the other branches are covered by "
+               "candidate-level correspondence + round-trip oracle only.",
     "search_widen": 4,
 }
 
